@@ -112,6 +112,10 @@ pub trait Space {
     fn chunk(&self) -> u64 {
         2000
     }
+    /// Index ranges whose cases are slow: scheduled first, one case per chunk.
+    fn heavy(&self) -> Vec<(u64, u64)> {
+        vec![]
+    }
     /// Indices of cases to list as samples (besides first/last).
     fn sample_indices(&self) -> Vec<u64> {
         let n = self.len();
@@ -456,12 +460,24 @@ pub fn explore(
             chunks.push((i, i + 1));
         }
     } else {
+        let heavy = space.heavy();
+        let is_heavy = |i: u64| heavy.iter().any(|(a, b)| i >= *a && i < *b);
         let mut s = 0;
+        let mut light = vec![];
         while s < n {
-            let e = (s + chunk).min(n);
-            chunks.push((s, e));
+            if is_heavy(s) {
+                chunks.push((s, s + 1));
+                s += 1;
+                continue;
+            }
+            let mut e = (s + chunk).min(n);
+            if let Some((a, _)) = heavy.iter().find(|(a, _)| *a > s && *a < e) {
+                e = *a;
+            }
+            light.push((s, e));
             s = e;
         }
+        chunks.extend(light);
     }
     let queue = Arc::new(Mutex::new(chunks.into_iter().rev().collect::<Vec<_>>()));
     let agg = Arc::new(Mutex::new(Aggregate::default()));
